@@ -415,3 +415,9 @@ M("C09", "second-pass-left-at-first-label", PROG, "            if isinstance(nod
 M("C02", "second-pass-left-at-first-label", PROG, "            if isinstance(node, LabelNode) or isinstance(node, BinaryNode):\n                continue", "            if isinstance(node, LabelNode) or isinstance(node, BinaryNode):\n                break", "C02.R3")
 M("C09", "splice-closer-not-consumed", PST, "    expect_token(p.next(), TokenType.DOUBLE_RBRACE)", "    expect_token(p.current(), TokenType.DOUBLE_RBRACE)", "C09.R10")
 M("C09", "double-rbrace-lexed-as-lbrace", SST, "            s.emit(TokenType.DOUBLE_RBRACE)", "            s.emit(TokenType.DOUBLE_LBRACE)", "C09.R10")
+# round 7
+M("C13", "stop-on-exhausted-file", NODES, 'ips_file.read(3)) != b"EOF":', 'ips_file.read(3)) not in (b"EOF", b""):', "C13.R2")
+M("C13", "marker-in-one-element-list-neutral", NODES, 'ips_file.read(3)) != b"EOF":', 'ips_file.read(3)) not in (b"EOF",):', neutral=True)
+M("C04", "stride-is-window-size", MAP, "return (bank - self.bank_range[0]) * self.mask + (value & ~self.mask & 0xFFFF)", "return (bank - self.bank_range[0]) * (self.address_range[1] - self.address_range[0] + 1) + (value & ~self.mask & 0xFFFF)", "C04.R5")
+M("C03", "stride-is-window-size", MAP, "return (bank - self.bank_range[0]) * self.mask + (value & ~self.mask & 0xFFFF)", "return (bank - self.bank_range[0]) * (self.address_range[1] - self.address_range[0] + 1) + (value & ~self.mask & 0xFFFF)", "C03.R5")
+M("C01", "suffix-case-kept", PST, "        size = p.current().value.lower()\n        p.next()\n", "        size = p.next().value\n", "C01.R12")
